@@ -18,6 +18,15 @@ def _jobs(tier):
         "L2": H.L2(16, 16),
     }
     more = {"L0": H.L0(), "L3": H.L3(), "L4": H.L4("c"), "L2.phase": H.L2(16, 8, "PHASE")}
+    # an overrun in the first episode (accumulated FREQUENCY drift must not leak into the next one) and a slow
+    # start-up hook (virtual wall time spent in startup() is not episode time)
+    ovr = H.L1(16, 8, 1, 2, 1, 2)
+    ovr["nodes"]["a"]["comp"] = H.d(1, (1, 9, 1, 6))
+    ovr["nodes"]["b"]["comp"] = H.d(2, (2, 12))
+    more["L1.overrun"] = ovr
+    slow = H.L1(16, 8, 1, 2, 1, 2)
+    slow["nodes"]["a"]["startup_sleep"] = 1.0
+    more["L1.slow-startup"] = slow
     short = [h for h in H.histories(1, 2, override=True)]
     two = H.histories(2, 2 if tier == "thorough" else 1, override=False)
     # deep: deviation-bounded exploration
@@ -54,7 +63,7 @@ def _jobs(tier):
                 # throttled simulated clock: sleeping tasks (throttle) survive lifecycle calls
                 wide[(hn, H.hist_name(h), pol, "SIM.rtf8", "G1")] = dict(spec=sp, user=h, policy=pol, clock="SIM", rtf=8)
     g2 = {}
-    g2h = [[["run"], ["stop"]], [["reset"], ["step"], ["stop"]], [["reset"], ["stop"]]]
+    g2h = [[["run"], ["stop"]], [["reset"], ["step"], ["stop"]], [["reset"], ["stop"]], [["reset"], ["stop"], ["reset"], ["stop"]], [["run"], ["stop"], ["run"], ["stop"]]]
     for hn in ("L0", "L1.16-16"):
         for pol in ("prio", "rr"):
             for h in g2h:
@@ -112,7 +121,12 @@ def run(tier, rep):
         out_g = explore_many(pool, {k: v for k, v in l0.items() if k not in l0_run}, 1 if tier == "quick" else 2, JUDGE)
         _report(rep, "G2_line_level_L0_other", out_g, 1 if tier == "quick" else 2)
         rest = {k: v for k, v in g2.items() if k[0] != "L0"}
-        out_g0 = explore_many(pool, rest, 0 if tier == "quick" else 1, JUDGE)
+        # a new episode after a stop() that was preempted at line level (state flips vs queued _stopping tasks)
+        rest2 = {k: v for k, v in rest.items() if k[1] in ("R.R.", "r.r.") and (tier == "thorough" or k[2] == "rr")}
+        out_g0 = explore_many(pool, rest2, 1, JUDGE)
+        _report(rep, "G2_line_level_L1_two_episodes", out_g0, 1)
+        rest1 = {k: v for k, v in rest.items() if k not in rest2}
+        out_g0 = explore_many(pool, rest1, 0 if tier == "quick" else 1, JUDGE)
         _report(rep, "G2_line_level_L1", out_g0, 0 if tier == "quick" else 1)
     some = list(deep.items())[:2]
     for k, j in some:
